@@ -1,7 +1,7 @@
 (* Proofs/Xcodecs.v (codec) - dubbo / dubbo-thrift / tars framing: pure characterisation, totality, bounds,
    prefix stability.  The opaque body parsers are arbitrary functions (universally quantified). *)
 From Coq Require Import List NArith Lia ZifyBool ZifyNat ZifyN Bool.
-From MV Require Import Lib.Bytes Lib.Dec Lib.Seg Gen.ProtoConsts Gen.CodecSrc Model.Xcodecs.
+From MV Require Import Lib.Bytes Lib.Dec Lib.Seg Model.CodecParams Model.Xcodecs.
 Import ListNotations.
 Open Scope N_scope.
 
